@@ -700,6 +700,32 @@ def buyer_world_replay(ctx, prop, path):
     return 1 if hit else 0
 
 
+def conn_reads(ctx, sig, consequence, clause, pid):
+    """what the relay and the parked-pool reader are built on: a stratum Read that is stopped (every destination change stops the
+    relay directions and the autoread of the parked pool this way) must not lose a line that arrives at that instant — the read
+    side of C14's connection harness (real StratumConnection, hooked net.Conn) against Model/Conn.lean"""
+    exe = build_harness(ctx, "proxy")
+    if not exe:
+        return 0
+    rc, out = run_harness(ctx, exe, "TestVerifC14$", env={"VERIF_N": 240 if ctx.tier == "quick" else 3000}, timeout=900)
+    if rc != 0:
+        ctx.tie_failures.append("connection harness run failed (rc=%d): %s" % (rc, out[-300:]))
+        return 0
+    impl = ctx.out + "/c14.impl.txt"
+    rc, err = drv("model", "c14", impl, impl + ".model.txt")
+    if rc != 0:
+        ctx.tie_failures.append("driver model c14 failed: " + err[-200:])
+        return 0
+    for d in diff_cases(impl, impl + ".model.txt"):
+        if d["header"].split()[-1] != "read":
+            continue
+        ops = [l for l in d["lines"][:d["first"] + 1] if l.startswith("> ")]
+        violation(ctx, sig, "a stratum Read that is being stopped: implementation %r, model %r — %s" % (d["impl"], d["other"], consequence),
+                  {"clause": clause, "case": d["header"], "ops": ops, "how_to_replay": "bin/check %s --replay <this file>" % pid})
+        break
+    return sum(1 for h, ls in parse_cases(impl) if h.endswith("read") for l in ls if l.startswith("> "))
+
+
 def handle_complaints(ctx, complaints, sig_of):
     """PROP complaints are property violations (with the op as replay), CORR ones a broken tie"""
     for case, c in complaints:
